@@ -253,9 +253,10 @@ main (int argc, char **argv)
 		pixman_image_set_transform (src, &tr);
 	    }
 	}
-	if (mkind == 1 || mkind == 3 || mkind == 4)
+	if (mkind == 1 || mkind == 3 || mkind == 4 || mkind == 6)
 	{
-	    /* 1: a8 mask, every pixel 255; 3: a8r8g8b8 component-alpha mask, every component 255; 4: translucent a8 (same in all variants) */
+	    /* 1: a8 mask, every pixel 255; 3: a8r8g8b8 component-alpha mask, every component 255; 4: translucent a8 (same in all variants);
+	     * 6: a8 with runs of 0, of 255 and of partial coverage (the special-cased values of the fast paths), same in all variants */
 	    pixman_format_code_t mf = mkind == 3 ? PIXMAN_a8r8g8b8 : PIXMAN_a8;
 	    int mw = dw + 4, mh = dh + 2, x, y;
 	    vrng_t rng;
@@ -267,6 +268,13 @@ main (int argc, char **argv)
 		for (y = 0; y < mh; y++)
 		    for (x = 0; x < mw; x++)
 			m.bits[y * m.stride + x] = (uint8_t)vrng_next (&rng);
+	    if (mkind == 6)
+		for (y = 0; y < mh; y++)
+		    for (x = 0; x < mw; x++)
+		    {
+			uint32_t r = (uint32_t)vrng_next (&rng);
+			m.bits[y * m.stride + x] = (r >> 8) % 3 == 0 ? 0 : (r >> 8) % 3 == 1 ? 255 : (uint8_t)r;
+		    }
 	    m.img = pixman_image_create_bits (mf, mw, mh, (uint32_t *)m.bits, m.stride);
 	    mask = m.img;
 	    if (mkind == 3)
